@@ -501,6 +501,17 @@ func runC18(c *fw.Ctx) {
 				v *= 10
 			}
 			m.roundTrip(v)
+			// the immediate float neighbours of a 10-decimal amount: their shortest decimal has 16-17 significant digits,
+			// amount*10^10 is not an integer, so they must be refused
+			amt := uint64(c.Rng.Int63n(2_000_000_000_000)) // up to 200 ZCN, mostly below 1 ZCN for small draws
+			if c.Rng.Intn(2) == 0 {
+				amt = uint64(c.Rng.Int63n(10_000_000_000))
+			}
+			fa, _ := new(big.Rat).SetFrac(bu(amt), ten10).Float64()
+			m.parseZCN(fa)
+			m.parseZCN(math.Nextafter(fa, math.Inf(1)))
+			m.parseZCN(math.Nextafter(fa, 0))
+			c.Count("parse_neighbours", 2)
 			c.Distinct("nontrivial", fw.Hash64("d", s, v))
 		}
 	}
@@ -513,12 +524,12 @@ func init() {
 		Level:        "exploration",
 		Rule: "cases: (1) every row of the exhaustive B x B table, B = boundary set of ~290 uint64 values (0..5, 2^k-1/2^k/2^k+1, sqrt and max neighbourhoods, 10^k±1), each pair through AddCoin/MinusCoin/MultCoin/Min/AddInt64/MinusInt64/DistributeCoin " +
 			"(second operand also reinterpreted as int64) plus unary conversions, ToZCN/ParseZCN round trip and MultFloat64 against the float set F; (2) pairs whose true product is a non-zero multiple of 2^64; (3) random pairs biased to boundaries; " +
-			"(4) random/boundary floats through Float64ToCoin and MultFloat64; (5) decimal amounts with 1..17 significant digits through ParseZCN and round trips. Oracle: math/big exact arithmetic, IEEE product + truncation for float helpers, " +
+			"(4) random/boundary floats through Float64ToCoin and MultFloat64; (5) decimal amounts with 1..17 significant digits through ParseZCN and round trips, plus the nearest float to random 10-decimal amounts and its two immediate float neighbours (which must be refused). Oracle: math/big exact arithmetic, IEEE product + truncation for float helpers, " +
 			"shortest round-trip decimal as exact rational for ParseZCN. distinct non-trivial = distinct operand tuples evaluated",
 		Cases: func(tier string) int { a, b, cc, d, e := c18Layout(tier); return a + b + cc + d + e },
 		Run:   runC18,
 		Floors: map[string]int64{"eval_MultCoin": 100000, "eval_AddCoin": 100000, "eval_DistributeCoin": 100000, "eval_Float64ToCoin": 50000, "eval_MultFloat64": 50000,
-			"eval_ParseZCN": 50000, "round_trips": 20000, "wrap_to_zero_pairs": 20000, "loud_failures": 10000, "parse_ok": 5000},
+			"eval_ParseZCN": 50000, "round_trips": 20000, "wrap_to_zero_pairs": 20000, "loud_failures": 10000, "parse_ok": 5000, "parse_neighbours": 100000},
 		Assumptions: []string{
 			"AddInt64/MinusInt64 with a negative operand: an error or the exact result are both accepted (the helper documents refusal)",
 			"Coin.Float64: the IEEE-nearest float with nil error, or an error, are accepted",
